@@ -24,6 +24,7 @@ class Explorer:
         self.cache = {}
         self.forks = 0
         self.transitions = 0
+        self.policy = None  # callable(node) -> bool | None : branch taken by ASSUMPTION (recorded in the path condition)
 
     def decide(self, n: Node) -> bool:
         k = len(self.trail)
@@ -36,6 +37,14 @@ class Explorer:
         nn = bnot(n)
         if nn in self.pcset:
             return False
+        if self.policy is not None:
+            v = self.policy(n)
+            if v is not None:
+                c = n if v else nn
+                self.pc.append(c)
+                self.pcset.add(c)
+                self.assumed = getattr(self, "assumed", 0) + 1
+                return bool(v)
         if k < len(self.prefix):
             choice = self.prefix[k]
         else:
